@@ -272,7 +272,9 @@ def mutate(rnd, t):
 
 
 def stress_texts(tier):
-    big = 600 if tier == "quick" else 3000
+    # (both tiers: from a few thousand sibling blocks on, the open finding F-C03-2 - recursion per sibling, quadratic
+    # rendering - is all one sees; its sizes are exercised by the two explicit 10 000 / 20 000 sibling texts of the thorough tier)
+    big = 600
     deep = 60 if tier == "quick" else 300
     out = {
         "siblings-paragraphs": "".join("para %d\n\n" % i for i in range(big)),
